@@ -243,7 +243,7 @@ impl World {
         let matrix = Matrix::random(&mut rng, n_ids, n_ids, false);
         let system = build_system(csv.as_bytes(), matrix.text().as_bytes())?;
 
-        let wd = Workdir::new(&format!("c14-{}-{}", group, directed.map_or(-1, |d| d as i64)));
+        let wd = Workdir::new_legacy(&format!("c14-{}-{}", group, directed.map_or(-1, |d| d as i64)));
         let mut chardef = std::fs::read_to_string(wd.path.join("char.def")).unwrap();
         let mut extra = String::new();
         for &k in KANJI_NUM {
